@@ -760,6 +760,16 @@ fn generate_single(r: &mut Rng, tier: Tier) -> C16 {
         };
         items.push(Item { kind, sync_before: r.chance(1, 6), flush_after: r.chance(1, 10) });
     }
+    if r.chance(1, 3) {
+        // byte-identical consecutive values (a writer must not take the second one for a retry of the first)
+        for i in 1..items.len() {
+            if r.chance(1, 4) {
+                if let ItemKind::Val(v) = items[i - 1].kind.clone() {
+                    items[i].kind = ItemKind::Val(v);
+                }
+            }
+        }
+    }
     let len = total_len(&items);
     let largest = items.iter().map(|i| match &i.kind { ItemKind::Val(v) => reference_encoding(v).map(|p| p.len() + 4).unwrap_or(0), _ => 0 }).max().unwrap_or(0);
     let en_short = r.chance(3, 4);
